@@ -26,6 +26,9 @@ class FlatMapFuture(MapFuture):
 
         self.__flattened = True
         self._map_fn = lambda x: x
+        # error_fn is for a failure of the original input only, not for a
+        # failure of the future we're now flattening
+        self._error_fn = None
         self._set_delegate(result)
 
 
